@@ -265,9 +265,40 @@ def inline_locals(expr, at_node, depth=4):
     return subst(expr, mapping) if mapping else clone(expr)
 
 
-def guard_atoms(node, stop=None):
+_FLIP = {ast.In: ast.NotIn, ast.NotIn: ast.In, ast.Eq: ast.NotEq, ast.NotEq: ast.Eq, ast.Is: ast.IsNot, ast.IsNot: ast.Is,
+         ast.Lt: ast.GtE, ast.GtE: ast.Lt, ast.Gt: ast.LtE, ast.LtE: ast.Gt}
+
+
+def canon_atom(test, polarity):
+    """(text, True) form of an atom that holds with the given polarity where the negation can be pushed into the atom:
+    (`x in y`, False) -> (`x not in y`, True), (`not c`, False) -> (`c`, True); other atoms keep their polarity"""
+    while isinstance(test, ast.UnaryOp) and isinstance(test.op, ast.Not):
+        test, polarity = test.operand, not polarity
+    if not polarity and isinstance(test, ast.Compare) and len(test.ops) == 1 and type(test.ops[0]) in _FLIP:
+        t = clone(test)
+        t.ops = [_FLIP[type(test.ops[0])]()]
+        return norm(t), True
+    return norm(test), polarity
+
+
+def guard_atoms(node, stop=None, canonical=False):
     """set of (normalised atom, polarity) over all enclosing if-tests of `node` (up to `stop`), conjunctions split:
-    nested ifs, one merged `and` and swapped conjuncts give the same set"""
+    nested ifs, one merged `and` and swapped conjuncts give the same set; with canonical=True negations are pushed into
+    comparison atoms, so the guard-clause form `if x in s: continue` equals the wrapping form `if x not in s:`"""
+    if canonical:
+        out = set()
+        for g in guards_of(node):
+            if g.kind not in ('if', 'exit') or (stop is not None and not any(x is g.node for x in ast.walk(stop))):
+                continue
+            t, pol = g.test, g.polarity
+            while isinstance(t, ast.UnaryOp) and isinstance(t.op, ast.Not):
+                t, pol = t.operand, not pol
+            if isinstance(t, ast.BoolOp) and ((pol and isinstance(t.op, ast.And)) or (not pol and isinstance(t.op, ast.Or))):
+                for v in t.values:
+                    out.add(canon_atom(v, pol))
+            else:
+                out.add(canon_atom(t, pol))
+        return out
     out = set()
     for g in guards_of(node):
         if g.kind not in ('if', 'exit'):
